@@ -83,7 +83,9 @@ C(op) == [f \in {"op", "d", "n", "i", "j", "u", "idx", "form"} |->
 \* form "points": the values are n points of size two (a list / tuple of pairs, a two-dimensional numpy array) - the length that must equal the
 \* dimension is the number of points, on every route that takes values
 PForms == {"", "points"}
-Ctor == \E d \in Dims, n \in Lens, u \in Us, f \in PForms : Step([C("Ctor") EXCEPT !.d = d, !.n = n, !.u = u, !.form = f])
+\* the constructor's argument forms: (dimension, values, unit), (dimension, category, values, unit), (dimension, quantity, values), values given by keyword
+CForms == PForms \cup {"category", "quantity", "kwvalues"}
+Ctor == \E d \in Dims, n \in Lens, u \in Us, f \in CForms : Step([C("Ctor") EXCEPT !.d = d, !.n = n, !.u = u, !.form = f])
 CtorDefault == \E d \in Dims : Step([C("CtorDefault") EXCEPT !.d = d])
 CreateWithQuantity == \E d \in Dims \cup {NoDim}, n \in Lens, f \in PForms : Step([C("CreateWithQuantity") EXCEPT !.d = d, !.n = n, !.form = f])
 CreateEmptyArray == \E d \in Dims, n \in Lens \cup {NoDim}, f \in PForms : (n = NoDim => f = "") /\ Step([C("CreateEmptyArray") EXCEPT !.d = d, !.n = n, !.form = f])
